@@ -15,10 +15,10 @@ EDIT_PROPS = {"C04", "C12", "C13"}
 PROFILES = {
     "C01": {"w": {"addpage": 8, "addpages": 4, "addlinks": 4, "batch": 4}, "r": {"global": 6, "pages": 2}},
     "C02": {"g1": 0.3, "r": {"locate": 8, "resolution": 2, "metrics": 1}},
-    "C03": {"w": {"addlinks": 8, "batch": 6, "clear": 0.6}, "r": {"pagelinks": 6, "linksiter": 4, "global": 2}},
+    "C03": {"co_interleave": 0.5, "w": {"addlinks": 8, "batch": 6, "clear": 0.6, "cobatch": 2.5}, "r": {"pagelinks": 6, "linksiter": 4, "global": 2}},
     "C04": {"g1": 0.8, "w": {"chain": 0.25, "create": 6, "delete": 3, "deleteu": 1.5, "addprefix": 3, "rmprefix": 3, "moveprefix": 2}, "r": {"resolution": 8, "global": 2}},
     "C05": {"g1": 0.85, "w": {"create": 5, "addprefix": 2, "clear": 0.5, "delete": 2, "rmprefix": 2}, "r": {"pages": 8, "resolution": 4, "global": 2}},
-    "C06": {"g1": 1.0, "init_rules": 0.8, "w": {"addrule": 5, "nestedrules": 1.5, "addruleram": 1.2, "rmrule": 1, "addpage": 8}, "r": {"resolution": 6, "global": 3}},
+    "C06": {"g1": 1.0, "init_rules": 0.8, "w": {"addrule": 5, "nestedrules": 1.5, "reinstall": 1.5, "addruleram": 1.2, "rmrule": 1, "addpage": 8}, "r": {"resolution": 6, "global": 3}},
     "C07": {"g1": 0.9, "big_ids": 0.12, "w": {"addlinks": 7, "batch": 5, "create": 4, "rmprefix": 2, "delete": 2, "clear": 0.5}, "r": {"network": 8}},
     "C08": {"g1": 0.9, "big_ids": 0.08, "w": {"addlinks": 7, "batch": 5, "create": 4, "rmprefix": 2, "delete": 2, "clear": 0.5}, "r": {"welinks": 8}},
     "C09": {"g1": 0.9, "w": {"addpage": 10, "addpages": 4, "create": 3, "clear": 0.5}, "r": {"paginate": 8, "pages": 1, "helpers": 1}},
